@@ -59,6 +59,7 @@ fn get_border(
             Some("medium") => BorderStyle::Medium,
             Some("thick") => BorderStyle::Thick,
             Some("double") => BorderStyle::Double,
+            Some("dotted") => BorderStyle::Dotted,
             Some("slantdashdot") => BorderStyle::SlantDashDot,
             Some("mediumdashed") => BorderStyle::MediumDashed,
             Some("mediumdashdot") => BorderStyle::MediumDashDot,
